@@ -566,7 +566,7 @@ func TestSeekWalks(t *testing.T) {
 	defer run.Done()
 	run.Rule("random walks of Seek(offset, whence in {start, current, end}) with targets inside the file, at 0, at the end, negative and past the end, each followed by 0-2 Reads (buffers with cap == len). distinct = (file kind, size class); per seek the class (whence, target class, outcome) is tallied",
 		"end-relative offsets count backwards from the end (the project's convention, named in the statement)",
-		"after a rejected seek the walk re-establishes a known position with an absolute seek; what a rejected seek does to the position is not judged")
+		"after a rejected seek the walk either reads on from the position it had (a seek that reports an error did not take place) or re-establishes a known position with an absolute seek")
 	for _, fs := range files(run) {
 		walks := run.N(6, 20)
 		for wk := 0; wk < walks; wk++ {
@@ -661,6 +661,18 @@ func TestSeekWalks(t *testing.T) {
 						run.Stat("seeks_rejected_with_target_inside_file", 1) // allowed by the statement; counted
 					}
 					run.Tally(fmt.Sprintf("seek|whence=%d|%s|rejected", whence, tclass), true)
+					if rng.Intn(2) == 0 {
+						// the seek reported an error, i.e. it did not take place: the next sequential
+						// read continues where the reader stood ("sequential reads neither skip nor
+						// repeat content")
+						n, ok := judgeRead(run, c, s, j, pos, 1+rng.Intn(5000), 0, "rejected-seek")
+						run.Stat("reads_after_rejected_seek_compared", 1)
+						if !ok {
+							break walk
+						}
+						pos += int64(n)
+						continue
+					}
 					known = false
 					continue
 				}
